@@ -1,7 +1,7 @@
 (* C09  Counter-file week boundaries are computed and honoured consistently.
    This file holds only statements; every proof is `exact <lemma>`. *)
 From Coq Require Import List ZArith NArith Bool.
-From Tele Require Import Lib.Bytes Lib.Calendar Model.Span Proofs.CalendarFacts Proofs.SpanFacts Proofs.SpanShare.
+From Tele Require Import Lib.Bytes Lib.Calendar Model.Span Proofs.CalendarFacts Proofs.SpanFacts Proofs.SpanShare Proofs.SpanChain.
 Import ListNotations.
 Open Scope Z_scope.
 From Coq Require Import String. Open Scope string_scope. Open Scope Z_scope. Open Scope list_scope.
@@ -52,6 +52,22 @@ Theorem C09_rotation_at_end : forall now0 now w, 0 <= w < 7 ->
   snd (counter_span now0 w) <= fst (counter_span now w).
 Proof. exact rotate_after_end. Qed.
 Print Assumptions C09_rotation_at_end.
+
+(* A long-lived rotating process: every rotate() arms one timer for the
+   recorded end; whenever each timer fires at that end (or later that day, any
+   number of weeks in a row) the spans of the files it counts into tile the
+   time line - each begins exactly at its predecessor's recorded end and lasts
+   one whole week - and there is one file per firing. *)
+Theorem C09_rotation_chain_tiles : forall now w fires, 0 <= w < 7 -> fires_on_time now w fires ->
+  match timer_chain now w fires with
+  | [] => False
+  | s :: r => s = counter_span now w /\ tiles (snd s) r
+  end.
+Proof. exact chain_tiles. Qed.
+Print Assumptions C09_rotation_chain_tiles.
+Theorem C09_rotation_chain_length : forall now w fires, List.length (timer_chain now w fires) = S (List.length fires).
+Proof. exact chain_length. Qed.
+Print Assumptions C09_rotation_chain_length.
 
 Theorem C09_rotation_keeps_same_day : forall now0 now w,
   now0 / 86400 = now / 86400 -> rotate_keeps (counter_span now0 w) now w = true.
